@@ -422,10 +422,14 @@ func (s *shard) repair(ctx context.Context, id []byte, property *propertyv1.Prop
 
 	// if the lastest property in shard is bigger than the repaired property,
 	// then the repaired process should be stopped.
-	if (olderProperties[len(olderProperties)-1].timestamp > property.Metadata.ModRevision) ||
-		olderProperties[len(olderProperties)-1].timestamp == property.Metadata.ModRevision &&
-			olderProperties[len(olderProperties)-1].deleteTime == deleteTime {
-		return false, olderProperties[len(olderProperties)-1], nil
+	// At the same revision only a tombstone may replace the live copy (a delete keeps the
+	// revision of the value it removes): a pushed live copy never replaces the tombstone of its
+	// own revision, otherwise two replicas holding the tombstone and the stale live copy would
+	// swap states on every exchange instead of converging.
+	latest := olderProperties[len(olderProperties)-1]
+	if latest.timestamp > property.Metadata.ModRevision ||
+		latest.timestamp == property.Metadata.ModRevision && (latest.deleteTime == deleteTime || latest.deleteTime > 0) {
+		return false, latest, nil
 	}
 
 	docIDList := s.buildNotDeletedDocIDList(olderProperties)
